@@ -204,7 +204,15 @@ class Prop:
                 op["env"] = [{"at": "validator", "nth": 1, "do": "gc"}]
             ops.append(op)
         return {"prop": ID, "seed": seed,
-                "config": {"vk": vk, "init": init, "listeners": listeners},
+                "config": {"vk": vk, "init": init, "listeners": listeners,
+                           # a second set next to this one (built alike, or a copy of it):
+                           # neither hears the other
+                           # extra raw notifiers, one of which unhooks others mid-notification
+                           "unhook": ({"n": 3, "at": c.randrange(6), "who": c.randrange(3),
+                                       "victims": c.sample(range(3), c.randint(1, 2))}
+                                      if c.random() < 0.25 else None),
+                           "sibling": c.choice([None, None, "plain", "copy", "deepcopy",
+                                                "pickle"])},
                 "ops": ops}
 
     # ------------------------------------------------------------------ model
@@ -317,11 +325,23 @@ class Prop:
                                     set(event.removed), set(event.added)))
                     observe(target, expression.set_items(), handler)
         attach(ts)
+        unh = None
+        if cfg.get("unhook"):
+            from ..sibling import Unhookers
+            unh = Unhookers(ID, ts, cfg["unhook"], env)
+        sib = None
+        if cfg.get("sibling"):
+            from ..sibling import Sibling
+            sib = Sibling(ID, cfg["sibling"], ts, lambda _n: TraitSet(set(ts)), env)
         originals = []          # (object, snapshot) of sets we copied from
         for i, op in enumerate(trace["ops"]):
             env.begin_op(i, op)
             for _, rec in recs:
                 del rec[:]
+            if sib is not None and i % 3 == 2:
+                sib.poke(recs, i)
+            if unh is not None:
+                unh.begin_op(i)
             k = op["k"]
             before = set(m)
             fired0 = env.fired["raise"]
@@ -355,6 +375,8 @@ class Prop:
                                         "holds %r)" % (how, e, set(c)), i)
                     c.discard(7000)
                 originals.append((ts, set(m)))
+                if unh is not None:
+                    unh.dead = True      # (they stay behind on the set that was copied)
                 ts = c
                 attach(ts)
                 env.token("copy", how)
@@ -369,6 +391,8 @@ class Prop:
                 val_exc, set_exc = self.model_apply(m, op, vk)
 
             ret, e = sut_set_apply(ts, op)
+            if sib is not None:
+                sib.after_main_op(k, i)
             if k == "pop" and e is None:
                 if ret not in m:
                     raise Violation("C07.return", "pop returned %r, not a member of %r"
@@ -425,6 +449,8 @@ class Prop:
             if k in ("ior", "iand", "isub", "ixor") and ret is not ts:
                 raise Violation("C07.return", "%s did not return self" % k, i)
             changed = (m != before)
+            if unh is not None:
+                unh.check(changed, describe(op), i)
             shape = None
             for kind, rec in recs:
                 if changed and len(rec) != 1:
